@@ -229,7 +229,7 @@ func runC07(w *World, p map[string]int) {
 	}
 	ls, lerr = y.ListWallets()
 	if lerr != nil || len(ls) != nWant || listed(ls) == nil || !listed(ls).Ready || listed(ls).Removing {
-		w.Violate("C07.import-unfinished", "after the chain stopped moving the restored wallet is %+v (%v); queue=%d", ls, lerr, y.WM.SimTaskQueueLen())
+		w.Violate("C07.import-unfinished", "after the chain stopped moving the restored wallet is %+v (%v); queue=%d; %v | wallet errors: %q", ls, lerr, y.WM.SimTaskQueueLen(), w.S.ParkedSummary(), w.RecentErrors(6))
 		return
 	}
 	// restored == model (== original, which is compared with the same model)
